@@ -30,6 +30,19 @@ fn corrupt(e: &Enc, cor: &str, enc: &str) -> Option<Enc> {
         (Enc::B(_), "empty") => Enc::B(vec![]),
         (Enc::B(b), "flip_first") => { let mut v = b.clone(); v[0] ^= 1; Enc::B(v) }
         (Enc::B(b), "flip_last") => { let mut v = b.clone(); let n = v.len() - 1; v[n] ^= 1; Enc::B(v) }
+        // the public key is the last field of the PKCS#8 document of a private key: 10 bytes from the end is inside it
+        (Enc::B(b), "flip_pubkey") => { let mut v = b.clone(); let n = v.len() - 10; v[n] ^= 1; Enc::B(v) }
+        (Enc::S(s), "flip_pubkey") if enc == "pem" => {
+            // the same flip on the DER inside the PEM armour
+            let lines: Vec<&str> = s.lines().collect();
+            let body: String = lines[1..lines.len() - 1].concat();
+            let mut der = base64::decode(&body).ok()?;
+            let n = der.len() - 10;
+            der[n] ^= 1;
+            let b64 = base64::encode(&der);
+            let wrapped: Vec<String> = b64.as_bytes().chunks(64).map(|c| String::from_utf8(c.to_vec()).unwrap()).collect();
+            Enc::S(format!("{}\n{}\n{}\n", lines[0], wrapped.join("\n"), lines[lines.len() - 1]))
+        }
         (Enc::S(s), "truncate") => {
             if enc == "pem" {
                 // drop one character of the base64 body
